@@ -354,7 +354,9 @@ func (dnsreqComp) run(op string, rec *[]string) (result, monitor, class string, 
 		// 0xFFFFFFFF is the wire sentinel for "no fragment size": not a transmissible value
 		inScope = inScope && v.UserId < 1296 && (v.DownstreamFragmentSize == nil || *v.DownstreamFragmentSize != 0xFFFFFFFF)
 	case *commands.TestUpstreamEncoderRequest:
-		inScope = inScope && v.UserId < 1296
+		// the probe is written into the name as it is; '.' and '\\' are name syntax, and finding out
+		// that such a pattern does not come through is the probe's purpose (not a selectable alphabet)
+		inScope = inScope && v.UserId < 1296 && !bytes.ContainsAny(v.Pattern, ".\\")
 	case *commands.TestDownstreamFragmentSizeRequest:
 		inScope = inScope && v.UserId < 1296
 	}
